@@ -88,7 +88,9 @@ MODELLED = {
     ("conv.py", "_PersistentWiring", "_load_from_state_dict"): SETDEFAULT_NN,
     ("thresholding.py", "LearnableThermometerThresholding", "get_extra_state"): ["return {'frozen': bool(self._frozen)}"],
     ("thresholding.py", "LearnableThermometerThresholding", "set_extra_state"): [
-        "self._frozen = bool(state['frozen'])", 'self.raw_diffs.requires_grad = not self._frozen'],
+        "self._frozen = bool(state['frozen'])", 'self.raw_diffs.requires_grad = not self._frozen',
+        # (a frozen parameter must not carry a gradient an earlier optimizer would keep applying: F40 / F73; no effect on the saved state)
+        "if self._frozen:\n    self.raw_diffs.grad = None"],
     ("thresholding.py", "LearnableThermometerThresholding", "_load_from_state_dict"): SETDEFAULT_NN,
 }
 PERSIST_METHODS = ("get_extra_state", "set_extra_state", "_load_from_state_dict", "_geometry", "state_dict", "load_state_dict",
